@@ -139,7 +139,7 @@ class FortranRegularExpressions:
     PP_INCLUDE: Pattern = compile(r"[ ]*#[ ]*include[ ]*([\"\w\.]*)", I)
     PP_ANY: Pattern = compile(r"^[ ]*#:?[ ]*(\w+)")
     # Context matching rules
-    CALL: Pattern = compile(r"[ ]*CALL[ ]+[\w%]*$", I)
+    CALL: Pattern = compile(r"(?:.*[^\w%])?CALL[ ]+[\w%]*$", I)
     INT_STMNT: Pattern = compile(r"^[ ]*[a-z]*$", I)
     TYPE_STMNT: Pattern = compile(r"[ ]*(TYPE|CLASS)[ ]*(IS)?[ ]*$", I)
     PROCEDURE_STMNT: Pattern = compile(r"[ ]*(PROCEDURE)[ ]*$", I)
@@ -149,7 +149,8 @@ class FortranRegularExpressions:
     )
     END: Pattern = compile(
         r"[ ]*(END)("
-        r" |MODULE|PROGRAM|SUBROUTINE|FUNCTION|PROCEDURE|TYPE|DO|IF|SELECT)?",
+        r" |(?:MODULE|PROGRAM|SUBROUTINE|FUNCTION|PROCEDURE|TYPE|DO|IF|SELECT)(?!\w)"
+        r"|(?!\w))",
         I,
     )
     # Object regex patterns
